@@ -20,7 +20,8 @@ NEEDS_DRIVER = False
 
 
 def pre_build():
-    S.regenerate('/repo')
+    import os
+    S.regenerate(os.environ.get('EAO_REPO', '/repo'))      # (EAO_REPO: development override, see core.py; the registered commands check /repo)
     return []
 
 
